@@ -49,6 +49,12 @@ impl Attached {
         impl<'s> DbGuard<'s> {
             #[inline]
             fn new(attached: &'s Attached, db: &dyn Database) -> Self {
+                #[cfg(salsa_rs_salsa_verif)]
+                crate::verif_conc::emit(crate::verif_conc::Ev::Attach {
+                    handle: db.zalsa_local().verif_handle(),
+                    attached_here: attached.database.get().is_none(),
+                    allow_change: false,
+                });
                 match attached.database.get() {
                     // A database is already attached, make sure it's the same as the new one.
                     Some(current_db) => {
@@ -74,6 +80,10 @@ impl Attached {
         impl Drop for DbGuard<'_> {
             #[inline]
             fn drop(&mut self) {
+                #[cfg(salsa_rs_salsa_verif)]
+                crate::verif_conc::emit(crate::verif_conc::Ev::Detach {
+                    attached_here: self.state.is_some(),
+                });
                 // Reset database to null if we did anything in `DbGuard::new`.
                 if let Some(attached) = self.state
                     && let Some(prev) = attached.database.replace(None)
@@ -107,6 +117,15 @@ impl Attached {
         impl<'s> DbGuard<'s> {
             #[inline]
             fn new(attached: &'s Attached, db: &dyn Database) -> Self {
+                #[cfg(salsa_rs_salsa_verif)]
+                crate::verif_conc::emit(crate::verif_conc::Ev::Attach {
+                    handle: db.zalsa_local().verif_handle(),
+                    attached_here: match attached.database.get() {
+                        Some(prev) => !std::ptr::addr_eq(prev.as_ptr(), db as *const dyn Database),
+                        None => true,
+                    },
+                    allow_change: true,
+                });
                 let db = NonNull::from(db);
                 match attached.database.replace(Some(db)) {
                     // A database was already attached by a parent scope.
@@ -140,6 +159,10 @@ impl Attached {
         impl Drop for DbGuard<'_> {
             #[inline]
             fn drop(&mut self) {
+                #[cfg(salsa_rs_salsa_verif)]
+                crate::verif_conc::emit(crate::verif_conc::Ev::Detach {
+                    attached_here: self.state.is_some(),
+                });
                 // Reset database to null if we did anything in `DbGuard::new`.
                 if let Some(attached) = self.state
                     && let Some(prev) = attached.database.replace(self.prev)
